@@ -1,6 +1,7 @@
 (* C20 - in-order delivery and the erase/redraw bracket, for every label list
-   without application start/exit/stop/loop-close labels, in the two stable
-   regimes: no application at all, and an application running throughout. *)
+   in the two stable regimes: no application at all (no life-cycle label), and
+   one application alive throughout (started before, it may exit, but is not
+   stopped/restarted and its loop is not closed); the flush thread never dies. *)
 From Coq Require Import ZArith List Bool Lia Arith.
 From PTK Require Import Lib.Sx Model.C20_StdoutProxy Proofs.C20_Queue Proofs.C20_Chain.
 Import ListNotations.
@@ -106,55 +107,67 @@ Proof.
   rewrite out_text_otext, i0_text0, i0_loopq0, i0_wait0. reflexivity.
 Qed.
 
-(* ================= regime 1: application running throughout ================= *)
+(* ========== regime 1: an application is alive (started, not yet stopped) ========== *)
+(* the trace scan has not failed, and while the application runs it says
+   "erased" exactly when a run-in-terminal section is open *)
+Definition brk_inv (run : bool) (o : list ev) (c : chain) : Prop :=
+  exists b, brk_run o = Some b /\ (run = true -> b = is_some (active c)).
+
 Record I1 (s : st) : Prop := mkI1 {
   i1_app : app (en s) = true;
-  i1_run : running (en s) = true;
-  i1_ctx : ctx (en s) = true;
   i1_open : lclosed (en s) = false;
   i1_path : forall acc dn path, fth (px s) = FChosen acc dn path -> path = Some (lid (en s));
   i1_text : otext (out s) ++ wait_text (ch s) ++ concat (loopq (en s)) = concat (handed (px s));
   i1_ok : forallb ev_ok (out s) = true;
-  i1_brk : brk_run (out s) = Some (is_some (active (ch s)))
+  i1_brk : brk_inv (running (en s)) (out s) (ch s)
 }.
 
-Lemma start_sec_facts : forall x c o,
+Lemma start_sec_facts : forall run x c o,
   active c = None ->
-  forallb ev_ok o = true -> brk_run o = Some false ->
-  let r := start_sec true x c o in
+  forallb ev_ok o = true -> (exists b, brk_run o = Some b) ->
+  let r := start_sec run x c o in
   otext (snd r) = otext o ++ pay_text (s_pay x) /\ waitq (fst r) = waitq c /\
-  forallb ev_ok (snd r) = true /\ brk_run (snd r) = Some (is_some (active (fst r))).
+  forallb ev_ok (snd r) = true /\ brk_inv run (snd r) (fst r).
 Proof.
-  intros x c o A Ok B. unfold start_sec. destruct (s_pay x); cbn zeta; cbn [fst snd waitq active pay_text].
-  - rewrite otext_app, forallb_app, brk_run_app, B, Ok, A. cbn. rewrite app_nil_r. auto.
-  - rewrite otext_app, forallb_app, brk_run_app, B, Ok. cbn. rewrite !app_nil_r. auto.
+  intros run x c o A Ok [b0 B]. unfold start_sec, brk_inv.
+  destruct (s_pay x); cbn zeta; cbn [fst snd waitq active pay_text].
+  - rewrite otext_app, forallb_app, brk_run_app, B, Ok, A.
+    destruct run; cbn; rewrite ?app_nil_r; (split; [reflexivity|]); (split; [reflexivity|]);
+      (split; [reflexivity|]); eexists; (split; [reflexivity|]); intros; try discriminate; reflexivity.
+  - rewrite otext_app, forallb_app, brk_run_app, B, Ok. cbn. rewrite !app_nil_r.
+    (split; [reflexivity|]); (split; [reflexivity|]); (split; [reflexivity|]).
+    eexists; split; [reflexivity|]. intros; reflexivity.
 Qed.
 
-Lemma submit_facts : forall p c o,
-  CI c -> forallb ev_ok o = true -> brk_run o = Some (is_some (active c)) ->
-  let r := submit true p c o in
+Lemma submit_facts : forall run p c o,
+  CI c -> forallb ev_ok o = true -> brk_inv run o c ->
+  let r := submit run p c o in
   otext (snd r) ++ wait_text (fst r) = otext o ++ wait_text c ++ pay_text p /\
-  forallb ev_ok (snd r) = true /\ brk_run (snd r) = Some (is_some (active (fst r))).
+  forallb ev_ok (snd r) = true /\ brk_inv run (snd r) (fst r).
 Proof.
-  intros p c o I Ok B. unfold submit. destruct (fdone c (lastf c)) eqn:F; cbn zeta.
+  intros run p c o I Ok B. unfold submit. destruct (fdone c (lastf c)) eqn:F; cbn zeta.
   - destruct (idle_when_last_done c I F) as [W [N [A All]]].
-    rewrite A in B. cbn [is_some] in B.
-    pose proof (start_sec_facts (mksec (lastf c) (nextf c) p)
-      (mkch (S (nextf c)) (Some (nextf c)) (donef c) (waitq c) (active c) (started c)) o A Ok B) as H.
+    assert (B0 : exists b, brk_run o = Some b) by (destruct B as [b [B1 _]]; now exists b).
+    pose proof (start_sec_facts run (mksec (lastf c) (nextf c) p)
+      (mkch (S (nextf c)) (Some (nextf c)) (donef c) (waitq c) (active c) (started c)) o A Ok B0) as H.
     cbn zeta in H. destruct H as [T [Wq [Ok' B']]].
     split; [|split; assumption].
     rewrite T. unfold wait_text. rewrite Wq. cbn [waitq s_pay]. rewrite W. cbn [map concat app]. now rewrite app_nil_r.
   - cbn [fst snd waitq active]. unfold wait_text. cbn [waitq]. rewrite map_app, concat_app.
-    cbn [map concat s_pay]. rewrite app_nil_r. split; [reflexivity|]. split; assumption.
+    cbn [map concat s_pay]. rewrite app_nil_r. split; [reflexivity|]. split; [assumption|].
+    destruct B as [b [B1 B2]]. exists b. split; [assumption|]. cbn [active]. exact B2.
 Qed.
 
-Lemma I1_step : forall s l, I1 s -> CI (ch s) -> no_lifecycle l = true -> I1 (step s l).
+Lemma brk_some : forall run o c, brk_inv run o c -> exists b, brk_run o = Some b.
+Proof. intros run o c [b [B _]]. now exists b. Qed.
+
+Lemma I1_step : forall s l, I1 s -> CI (ch s) -> app_alive l = true -> I1 (step s l).
 Proof.
   intros s l I C NL. destruct (quiet l) eqn:Q.
   { destruct (quiet_step s l Q) as [E [Cc [O [_ [H P]]]]]. destruct I.
     constructor; rewrite ?E, ?Cc, ?O, ?H; try assumption.
     intros acc dn path F. apply P in F. eapply i1_path0; eassumption. }
-  destruct I as [Ia Ir Ic Io Ip It Iok Ib].
+  pose proof I as Ifull. destruct I as [Ia Io Ip It Iok Ib].
   destruct l; try discriminate; cbn [step].
   - (* FChoose *)
     constructor; cbn [en ch out px]; try assumption.
@@ -164,46 +177,67 @@ Proof.
       * exact (Ip _ _ _ E).
     + unfold do_fchoose. destruct (fth (px s)); assumption.
   - (* FDeliver *)
-    destruct (fth (px s)) as [| | |acc dn path| |] eqn:F; try (constructor; rewrite ?F; assumption).
+    destruct (fth (px s)) as [| | |acc dn path| |] eqn:F; try (exact Ifull).
     rewrite (Ip _ _ _ eq_refl). rewrite Nat.eqb_refl, Io. cbn [negb andb].
     constructor; cbn [en ch out px set_fth set_loopq fth handed app running ctx lclosed loopq lid]; try assumption.
     + intros a d p. destruct dn; discriminate.
     + rewrite !concat_app, <- It. cbn. rewrite !app_nil_r, <- !app_assoc. reflexivity.
+  - (* AppExit *)
+    rewrite Ia. cbn [andb]. destruct (running (en s)) eqn:R; [|exact Ifull].
+    destruct Ib as [b [B1 B2]].
+    constructor; cbn [en ch out px app running ctx lclosed loopq lid]; try assumption.
+    + rewrite otext_app. destruct (active (ch s)); cbn; rewrite ?app_nil_r; assumption.
+    + rewrite forallb_app, Iok. destruct (active (ch s)); reflexivity.
+    + unfold brk_inv. rewrite brk_run_app, B1.
+      destruct (active (ch s)); cbn; eexists; (split; [reflexivity|intros; discriminate]).
   - (* LoopStep *)
-    rewrite Io. destruct (loopq (en s)) as [|t q] eqn:Lq; [constructor; try assumption; now rewrite Lq|].
-    rewrite Ia, Ic, Ir. cbn [andb].
-    destruct (submit_facts (PWrite t) (ch s) (out s) C Iok Ib) as [T [Ok' B']]. cbn zeta in *.
-    destruct (submit true (PWrite t) (ch s) (out s)) as [c' o']. cbn [fst snd] in *.
-    constructor; cbn [en ch out px set_loopq app running ctx lclosed loopq lid]; try assumption.
-    rewrite app_assoc, T, <- It. cbn [pay_text concat]. rewrite <- !app_assoc. reflexivity.
+    rewrite Io. destruct (loopq (en s)) as [|t q] eqn:Lq; [exact Ifull|].
+    rewrite Ia. cbn [andb].
+    destruct (running (en s) || negb (fdone (ch s) (lastf (ch s)))) eqn:G.
+    + destruct (submit_facts (running (en s)) (PWrite t) (ch s) (out s) C Iok Ib) as [T [Ok' B']]. cbn zeta in *.
+      destruct (submit (running (en s)) (PWrite t) (ch s) (out s)) as [c' o']. cbn [fst snd] in *.
+      constructor; cbn [en ch out px set_loopq app running ctx lclosed loopq lid]; try assumption.
+      rewrite app_assoc, T, <- It. cbn [pay_text concat]. rewrite <- !app_assoc. reflexivity.
+    + apply orb_false_iff in G. destruct G as [R Fd]. apply negb_false_iff in Fd.
+      destruct (idle_when_last_done (ch s) C Fd) as [W [N [A All]]].
+      destruct Ib as [b [B1 B2]].
+      constructor; cbn [en ch out px set_loopq app running ctx lclosed loopq lid]; try assumption.
+      * rewrite otext_app, <- It. unfold wait_text. rewrite W. cbn. rewrite !app_nil_r, <- !app_assoc. reflexivity.
+      * rewrite forallb_app, Iok, R. reflexivity.
+      * unfold brk_inv. rewrite brk_run_app, B1, R. cbn. rewrite orb_true_r.
+        exists b. split; [reflexivity|intros; discriminate].
   - (* Render *)
-    rewrite Ia, Ir. cbn [andb]. destruct (active (ch s)) eqn:A; [constructor; try assumption; now rewrite A|].
-    constructor; cbn [en ch out px]; try assumption.
+    rewrite Ia. cbn [andb]. destruct (running (en s)) eqn:R; [|exact Ifull].
+    cbn [andb]. destruct (active (ch s)) eqn:A; [exact Ifull|].
+    destruct Ib as [b [B1 B2]].
+    constructor; cbn [en ch out px]; rewrite ?R; try assumption.
     + rewrite otext_app. cbn. rewrite app_nil_r. assumption.
     + rewrite forallb_app, Iok. reflexivity.
-    + rewrite brk_run_app, Ib, A. reflexivity.
+    + unfold brk_inv. rewrite brk_run_app, B1, A. cbn. eexists; split; reflexivity.
   - (* ExtBegin *)
-    rewrite Ia, Ir. cbn [andb].
-    destruct (submit_facts PExt (ch s) (out s) C Iok Ib) as [T [Ok' B']]. cbn zeta in *.
+    rewrite Ia. cbn [andb]. destruct (running (en s)) eqn:R; [|exact Ifull].
+    destruct (submit_facts true PExt (ch s) (out s) C Iok Ib) as [T [Ok' B']]. cbn zeta in *.
     destruct (submit true PExt (ch s) (out s)) as [c' o']. cbn [fst snd] in *.
-    constructor; cbn [en ch out px]; try assumption.
+    constructor; cbn [en ch out px]; rewrite ?R; try assumption.
     rewrite app_assoc, T, <- It. cbn [pay_text]. rewrite app_nil_r, <- !app_assoc. reflexivity.
   - (* ExtEnd *)
-    destruct (active (ch s)) as [own|] eqn:A; [|constructor; try assumption; now rewrite A].
-    rewrite Ir. constructor; cbn [en ch out px redraw]; try assumption.
-    + rewrite otext_app. cbn. rewrite app_nil_r. exact It.
-    + rewrite forallb_app, Iok. reflexivity.
-    + rewrite brk_run_app, Ib. reflexivity.
+    destruct (active (ch s)) as [own|] eqn:A; [|exact Ifull].
+    destruct Ib as [b [B1 B2]].
+    constructor; cbn [en ch out px]; try assumption.
+    + rewrite otext_app. destruct (running (en s)); cbn; rewrite ?app_nil_r; exact It.
+    + rewrite forallb_app, Iok. destruct (running (en s)); reflexivity.
+    + unfold brk_inv. rewrite brk_run_app, B1. cbn [active].
+      destruct (running (en s)); cbn; eexists; (split; [reflexivity|intros; try discriminate; reflexivity]).
   - (* Wake *)
-    destruct (nth_error (waitq (ch s)) i) as [x|] eqn:Hn; [|constructor; assumption].
-    destruct (fdone (ch s) (s_prev x)) eqn:Fd; [|constructor; assumption].
+    destruct (nth_error (waitq (ch s)) i) as [x|] eqn:Hn; [|exact Ifull].
+    destruct (fdone (ch s) (s_prev x)) eqn:Fd; [|exact Ifull].
     destruct (wake_head (ch s) i x C Hn Fd) as [E [A [Ox All]]]. subst i.
-    rewrite A in Ib. cbn [is_some] in Ib. rewrite Ir.
     set (c0 := mkch (nextf (ch s)) (lastf (ch s)) (donef (ch s)) (remove_nth 0 (waitq (ch s)))
                     (active (ch s)) (started (ch s))).
     assert (A0 : active c0 = None) by exact A.
-    destruct (start_sec_facts x c0 (out s) A0 Iok Ib) as [T [Wq [Ok' B']]]. cbn zeta in *.
-    destruct (start_sec true x c0 (out s)) as [c' o']. cbn [fst snd] in *.
+    destruct (start_sec_facts (running (en s)) x c0 (out s) A0 Iok (brk_some _ _ _ Ib)) as [T [Wq [Ok' B']]].
+    cbn zeta in *.
+    destruct (start_sec (running (en s)) x c0 (out s)) as [c' o']. cbn [fst snd] in *.
     constructor; cbn [en ch out px]; try assumption.
     rewrite T, <- It. unfold wait_text. rewrite Wq. unfold c0. cbn [waitq].
     destruct (waitq (ch s)) as [|y w]; [discriminate|]. cbn [nth_error] in Hn. injection Hn as ->.
@@ -212,13 +246,17 @@ Qed.
 
 Definition init_running (c : bool) : st := step (init c) LAppStart.
 
-Lemma I1_init : I1 (init_running true).
-Proof. constructor; cbn; try reflexivity. intros; discriminate. Qed.
+Lemma I1_init : forall c, I1 (init_running c).
+Proof.
+  intros c. constructor; cbn; try reflexivity.
+  - intros; discriminate.
+  - exists false. split; reflexivity.
+Qed.
 
 Lemma CI_init_running : forall c, CI (ch (init_running c)).
 Proof. intros c. apply CI_step. apply CI_init. Qed.
 
-Lemma I1_run : forall ls s, I1 s -> CI (ch s) -> forallb no_lifecycle ls = true ->
+Lemma I1_run : forall ls s, I1 s -> CI (ch s) -> forallb app_alive ls = true ->
   I1 (run s ls) /\ CI (ch (run s ls)).
 Proof.
   induction ls as [|l ls IH]; intros s I C H; [split; assumption|].
@@ -243,19 +281,54 @@ Proof.
   split; [|apply I]. rewrite (pipeline_I0 _ I), ptext_run. reflexivity.
 Qed.
 
-Lemma in_order_running : forall ls,
-  forallb no_lifecycle ls = true ->
-  let s := run (init_running true) ls in
+Lemma in_order_running : forall c ls,
+  forallb app_alive ls = true ->
+  let s := run (init_running c) ls in
   pipeline s = stream ls /\ forallb ev_ok (out s) = true /\ brk_run (out s) <> None.
 Proof.
-  intros ls H. cbn zeta.
-  destruct (I1_run ls (init_running true) I1_init (CI_init_running true) H) as [I C].
+  intros c ls H. cbn zeta.
+  destruct (I1_run ls (init_running c) (I1_init c) (CI_init_running c) H) as [I C].
   split; [|split; [apply I|]].
   - rewrite (pipeline_I1 _ I), ptext_run. reflexivity.
-  - destruct I. rewrite i1_brk0. discriminate.
+  - destruct I. destruct i1_brk0 as [b [B _]]. rewrite B. discriminate.
 Qed.
 
 Lemma drained_out : forall s, drained s -> pipeline s = out_text s.
 Proof.
   intros s [A [B C]]. unfold pipeline. rewrite A, B, C. now rewrite !app_nil_r.
+Qed.
+
+(* ---- the flush thread never dies ---- *)
+Lemma no_crash_step : forall s l, fth (px s) <> FCrash -> fth (px (step s l)) <> FCrash.
+Proof.
+  intros s l F. destruct l; cbn [step px]; try exact F.
+  - unfold do_write. destruct (split_last d) as [[b a]|]; exact F.
+  - unfold do_fget. destruct (px s) as [b q f h]. cbn [fth queue buf handed] in *.
+    destruct f; try exact F. destruct q as [|[x|] q]; try exact F; [destruct x|]; discriminate.
+  - unfold do_fnowait. destruct (px s) as [b q f h]. cbn [fth queue buf handed] in *.
+    destruct f; try exact F. destruct q as [|[x|] q]; discriminate.
+  - unfold do_fchoose. destruct (px s) as [b q f h]. cbn [fth queue buf handed] in *.
+    destruct f; try exact F. discriminate.
+  - destruct (fth (px s)) as [| | |acc dn [k|]| |] eqn:E; try (rewrite E; exact F).
+    + destruct (Nat.eqb k (lid (en s)) && negb (lclosed (en s))); cbn [px set_fth fth]; destruct dn; discriminate.
+    + cbn [px set_fth fth]. destruct dn; discriminate.
+  - destruct (negb (app (en s)) && negb (running (en s))); exact F.
+  - destruct (app (en s) && running (en s)); exact F.
+  - destruct (app (en s) && negb (running (en s)) && fdone (ch s) (lastf (ch s))); exact F.
+  - destruct (negb (app (en s)) && negb (lclosed (en s))); exact F.
+  - destruct (lclosed (en s)); [exact F|]. destruct (loopq (en s)); [exact F|].
+    destruct (app (en s) && (running (en s) || negb (fdone (ch s) (lastf (ch s))))); [destruct (submit _ _ _ _)|]; exact F.
+  - destruct (app (en s) && running (en s) && _); exact F.
+  - destruct (app (en s) && running (en s)); [destruct (submit _ _ _ _)|]; exact F.
+  - destruct (active (ch s)); exact F.
+  - destruct (nth_error (waitq (ch s)) i); [|exact F].
+    destruct (fdone (ch s) (s_prev s0)); [destruct (start_sec _ _ _ _)|]; exact F.
+Qed.
+
+Lemma never_dies : forall c ls, fth (px (run (init c) ls)) <> FCrash.
+Proof.
+  intros c ls. assert (H : forall ls s, fth (px s) <> FCrash -> fth (px (run s ls)) <> FCrash).
+  { induction ls0 as [|l ls0 IH]; intros s F; [exact F|].
+    change (run s (l :: ls0)) with (run (step s l) ls0). apply IH. now apply no_crash_step. }
+  apply H. cbn. discriminate.
 Qed.
